@@ -247,6 +247,22 @@ impl<T> DualNumFloat for T where
 {
 }
 
+/// Taylor series of the spherical Bessel function of the first kind `j_n` around zero.
+///
+/// The closed-form expressions cancel catastrophically for small arguments.
+#[doc(hidden)]
+pub fn sph_jn_series<D: DualNum<F>, F: DualNumFloat>(x: &D, n: i32) -> D {
+    let z = -(x.clone() * x);
+    // leading term x^n/(2n+1)!!
+    let mut term = (1..=n).fold(D::one(), |t, i| t * x / F::from(2 * i + 1).unwrap());
+    let mut sum = term.clone();
+    for k in 1..=13 {
+        term = term * &z / F::from(2 * k * (2 * (k + n) + 1)).unwrap();
+        sum += term.clone();
+    }
+    sum
+}
+
 macro_rules! impl_dual_num_float {
     ($float:ty) => {
         impl DualNum<$float> for $float {
@@ -350,15 +366,15 @@ macro_rules! impl_dual_num_float {
                 <$float>::atanh(*self)
             }
             fn sph_j0(&self) -> Self {
-                if self.abs() < <$float>::EPSILON {
-                    1.0 - self * self / 6.0
+                if self.abs() < 1.0 {
+                    sph_jn_series(self, 0)
                 } else {
                     self.sin() / self
                 }
             }
             fn sph_j1(&self) -> Self {
-                if self.abs() < <$float>::EPSILON {
-                    self / 3.0
+                if self.abs() < 1.0 {
+                    sph_jn_series(self, 1)
                 } else {
                     let sc = self.sin_cos();
                     let rec = self.recip();
@@ -366,8 +382,8 @@ macro_rules! impl_dual_num_float {
                 }
             }
             fn sph_j2(&self) -> Self {
-                if self.abs() < <$float>::EPSILON {
-                    self * self / 15.0
+                if self.abs() < 1.0 {
+                    sph_jn_series(self, 2)
                 } else {
                     let sc = self.sin_cos();
                     let s2 = self * self;
